@@ -283,8 +283,51 @@ func main() {
 	})
 	nontrivial += int64(len(longLengths) * 8)
 
+	// (6) many bad symbols at once: an input is rejected however many of its symbols are bad - every
+	// count 1..1100 and counts around 2^16 / 2^20 (an error counter, flag accumulator or index that wraps)
+	// of bad bytes / characters, as the whole input and embedded in a valid one twice as long
+	counts := []int{}
+	for n := 1; n <= 1100; n++ {
+		counts = append(counts, n)
+	}
+	counts = append(counts, 4095, 4096, 4097, 65535, 65536, 65537, 131072, 1<<20-1, 1<<20, 1<<20+1)
+	badBytes := []byte{0xff, 0x0a, 0xa0, 0x9f, 0xf9}
+	vk.Parallel(len(counts), func(k int) {
+		n := counts[k]
+		for bi, bad := range badBytes {
+			if n > 1100 && bi > 1 {
+				break
+			}
+			raw := bytes.Repeat([]byte{bad}, n)
+			checkDecode(r, raw)
+			mixed := make([]byte, 2*n)
+			for i := range mixed {
+				mixed[i] = spec.BCD2((i * 13) % 100)
+				if i%2 == 1 {
+					mixed[i] = bad
+				}
+			}
+			checkDecode(r, mixed)
+		}
+		for ci, c := range []byte{'a', ':', ' '} {
+			if n > 1100 && ci > 0 {
+				break
+			}
+			checkEncode(r, string(bytes.Repeat([]byte{c}, n)))
+			mixed := make([]byte, 2*n)
+			for i := range mixed {
+				mixed[i] = '0' + byte(i%10)
+				if i%2 == 1 {
+					mixed[i] = c
+				}
+			}
+			checkEncode(r, string(mixed))
+		}
+	})
+	nontrivial += int64(1100*(2*len(badBytes)+6) + 10*(4+2))
+
 	r.Distinct(nontrivial)
-	r.Rule(fmt.Sprintf("long inputs: digit strings / BCD slices of 20 lengths from 255 to 2097153 digits, all valid and with one bad symbol at the first, middle and last position; histories (consecutive calls): every ordered pair of byte values at every position of slices of length 1..9 and 16 (two base patterns) for Decode, every ordered pair of symbols at every position of digit strings of length 1..17 for Encode - counted as evaluations only; every string of length 0..%d over {0..9,'a','é'}; every byte slice of length 0..2 and (thorough: all; quick: one byte fixed to a boundary value) length 3; every single (position,symbol) substitution into digit strings of length 1..32 and BCD slices of length 1..16; distinct = distinct inputs by construction", maxLen))
+	r.Rule(fmt.Sprintf("many bad symbols at once: 1..1100 and 10 counts around 2^12 / 2^16 / 2^17 / 2^20 bad bytes (5 values) or characters (3), alone and alternating with valid ones; long inputs: digit strings / BCD slices of 20 lengths from 255 to 2097153 digits, all valid and with one bad symbol at the first, middle and last position; histories (consecutive calls): every ordered pair of byte values at every position of slices of length 1..9 and 16 (two base patterns) for Decode, every ordered pair of symbols at every position of digit strings of length 1..17 for Encode - counted as evaluations only; every string of length 0..%d over {0..9,'a','é'}; every byte slice of length 0..2 and (thorough: all; quick: one byte fixed to a boundary value) length 3; every single (position,symbol) substitution into digit strings of length 1..32 and BCD slices of length 1..16; distinct = distinct inputs by construction", maxLen))
 	r.Sample(map[string]any{"encode": "12a", "reference": "error"})
 	r.Sample(map[string]any{"encode": "123", "reference": "0123"})
 	r.Sample(map[string]any{"decode": "129a", "reference": "error"})
